@@ -336,3 +336,7 @@ package builder
 //@   loop 1 invariant forall(i, 0, $k, allocated(functions[i]) && functions[i] != nil && functions[i].Name == objName(methods[i].Method))
 //@   loop 1 invariant kept(option.pmInv, *option.PatternMatcher)
 //@   reveal entryOK
+//@
+//@ func NewFunctionBuilder(file, fset, pkg, imports) (r)
+//@   nilable file, fset, pkg
+//@   ensures {C02} fresh(r) && r.file == file && r.fset == fset && r.pkg == pkg && r.imports == imports
